@@ -50,6 +50,20 @@ def check_wake_loops(mod, rep, rid, only_files=None):
                     rep.violate(Violation(rid, i.where(), '%s: the wake loop does not unlink every element it visits (an element can be skipped and is never woken)' % fn.name,
                                           site='%s/wake-loop-skips' % fn.name))
 
+def _repolls(mod, name, depth):
+    """a defined helper that (transitively) re-reads a wake condition: an atomic load of a waiting flag or an indirect (ready_time) call"""
+    f = mod.func(name)
+    if f is None or f.decl or depth < 0:
+        return False
+    for j in f.real_insts():
+        if j.op == 'load' and j.ord != 'na' and util.last_field(util.addr_class(mod, f, j.ops[0])) == WAITING:
+            return True
+        if j.op == 'call' and j.callee is None:
+            return True
+        if j.op == 'call' and j.callee and j.callee != name and not j.callee.startswith('llvm.') and _repolls(mod, j.callee, depth - 1):
+            return True
+    return False
+
 def check_sleeper_loops(mod, rep, rid, sem_p):
     """every call to a semaphore P lies in a natural loop whose exit condition depends on an atomic load (the wake flag) or on
     values recomputed in the loop (ready times); a return value of P alone never ends the wait"""
@@ -70,6 +84,8 @@ def check_sleeper_loops(mod, rep, rid, sem_p):
                             if j.op == 'load' and j.ord != 'na' and util.last_field(util.addr_class(mod, fn, j.ops[0])) == WAITING:
                                 ok = True
                             if j.op == 'call' and j.callee is None:
+                                ok = True
+                            if j.op == 'call' and j.callee and _repolls(mod, j.callee, 3):
                                 ok = True
                 rep.instance(rid, '%s: %s at %s' % (fn.name, i.callee, i.where()))
                 rep.oblig(rid, ok)
